@@ -41,7 +41,19 @@ TAU_TRANS = 5e-3   # worst observed 6.9e-4 (float32 coordinates, cube roots of n
 TAU_PERM = 3e-3    # worst observed 2.7e-4
 
 
-def tau_rot(kind, L):
+# the N block alone is much steadier than the N+P vector (no cube roots): own bounds, >= 10x the worst observed over seeds 0..9
+TAU_ROT_N = {
+    "smooth": {4: 2e-2, 6: 4e-3, 8: 1e-3, 12: 1e-4},               # worst observed 1.7e-3 / 3.1e-4 / 6.9e-5 / 2.2e-6
+    "smooth+channel": {4: 3e-2, 6: 2e-2, 8: 1.2e-2, 12: 1.1e-2},   # 3.0e-3 / 1.9e-3 / 1.2e-3 / 1.1e-3
+    "stockholder": {4: 0.16, 6: 0.12, 8: 0.085, 12: 0.02},         # 2.8e-2 / 1.2e-2 / 8.2e-3 / 1.9e-3
+}
+
+
+def tau_rot(kind, L, channel=None):
+    if kind.endswith("|N"):
+        base = kind.split("|")[0]
+        return TAU_ROT_N["stockholder" if base.startswith("stockholder") else "smooth+channel" if channel else "smooth"][L]
+    kind = kind.split("|")[0]
     cat = "stockholder" if kind.startswith("stockholder") else "atomic" if kind == "atomic-api" else "crystal" if kind == "crystal" else "smooth"
     return TAU_ROT_BY[cat][L]
 
@@ -80,6 +92,10 @@ def descriptor(kind, L, zs, pos, ext=None, channel=None, isovalue=None):
 
     sht = SHT(L)
     kw = {}
+    if "|" in kind:
+        # "<surface>|N": the documented kinds= argument (only the N block is returned). The P block alone is not swept: its entries
+        # are signed cube roots of near-zero numbers, and no pose bound calibrated on the N-dominated vector applies to it
+        kind, kw["kinds"] = kind.split("|")
     if channel:
         kw["with_property"] = channel
     if kind == "promolecule":
@@ -184,7 +200,7 @@ def mol_worker(part, job):
         t = np.array(TRANSLATIONS[ri % 3])
         pose_perm = tuple(range(len(zs)))
         pose_R = R
-        run_pose("rotation", zs, p0 @ R.T + t, (ext0[0], ext0[1] @ R.T + t) if ext0 else None, tau_rot(kind, L),
+        run_pose("rotation", zs, p0 @ R.T + t, (ext0[0], ext0[1] @ R.T + t) if ext0 else None, tau_rot(kind, L, channel),
                  "rotation %s + translation %s" % ("*".join(w), tuple(t)))
     part.nontriv((name, L, kind, channel, isovalue))
 
@@ -341,6 +357,8 @@ def run(ctx):
                       ("stockholder", None, None), ("stockholder", "d_norm", None), ("stockholder", "esp", None), ("molecule-api", None, None),
                       ("stockholder-default", None, None), ("stockholder-default", "d_norm", None), ("stockholder-default", "esp", None),
                       ("promolecule-origin", None, 2e-4), ("promolecule-origin", "d_norm", 2e-4)]
+            combos += [("promolecule|N", None, 2e-4), ("molecule-api|N", None, None), ("stockholder|N", None, None),
+                       ("promolecule|N", "d_norm", 2e-4)]
             if L == 6:
                 combos.append(("atomic-api", None, None))
             if ctx.thorough:
@@ -356,12 +374,12 @@ def run(ctx):
                     jobs.append(("crystal", (fname, L, api, ri, ctx.seed)))
     jobs.sort(key=lambda j: -(j[1][1] if j[0] != "radial" else 0))
     ctx.pmap(worker, jobs)
-    ctx.rule = ("molecules %s x l_max %s x surfaces {promolecule (2 isovalues; default and explicit off-centre origin), stockholder with a 6-molecule exterior (explicit and default origin/bounds), Molecule API, per-atom API} x channels "
+    ctx.rule = ("molecules %s x l_max %s x surfaces {promolecule (2 isovalues; default and explicit off-centre origin), stockholder with a 6-molecule exterior (explicit and default origin/bounds), Molecule API, per-atom API; kinds in {NP, N}} x channels "
                 "{none, d_norm, esp} (one deviation from the default at a time%s) x poses: %d rotations (BFS words of length <= 2 over 5 generators + a seed-rotated "
                 "one) combined with 3 translations, 2 pure translations, all atom orders (<= 4 atoms) / 3 orders (5 atoms), reversed exterior; radial-function "
                 "residuals; error reporting for excluded surfaces; bundled crystals in a rotated lattice through 4 Crystal APIs; distinct = (molecule, l_max, surface, "
                 "channel, isovalue)" % (list(MOLS), list(LMAX), "" if not ctx.thorough else "; thorough adds two-deviation combinations", len(rots)))
-    ctx.bounds = {"rotations": len(rots), "tau_rotation": TAU_ROT_BY, "tau_translation": TAU_TRANS, "tau_permutation": TAU_PERM}
+    ctx.bounds = {"rotations": len(rots), "tau_rotation": TAU_ROT_BY, "tau_rotation_N_only": TAU_ROT_N, "tau_translation": TAU_TRANS, "tau_permutation": TAU_PERM}
     ctx.assumptions = ["pose independence holds up to discretisation: the bounds are calibrated on the unchanged tree (>= 10x the worst observed over seeds 0..9), not derived",
                        "descriptor distance: N block relative to its maximum, P block compared after cubing (the signed cube root amplifies noise at 0)",
                        "compiled root finder exercised as built"]
